@@ -673,6 +673,9 @@ class Exec:
         else:
             j = t.rfind(') -> unwind')
             if j >= 0: left = t[:j + 1]
+            else:
+                mm = re.search(r'\) -> bb\d+$', t)
+                if mm: left = t[:mm.start() + 1]
         if left and ' = ' in left:
             dest, callexpr = left.split(' = ', 1)
             d = 0; q = len(callexpr) - 1
